@@ -5,6 +5,7 @@ import multiprocessing as mp
 import re
 from pathlib import Path
 import common as C
+import gen_hash
 
 PROPERTIES = ["C02"]
 MANIFEST = {
@@ -15,7 +16,7 @@ MANIFEST = {
         "design_ref": "DESIGN.md 3/C02",
     }
 }
-PROPS = ["Nstd.Hash.Props"]
+PROPS = ["Nstd.Hash.Props", "Nstd.Hash.PropsLink"]
 LEAN_TARGETS = PROPS + ["drv_hash"]
 DRIVER = "drv_hash"
 SOURCES = ["hash.cpp", C.REPO / "src/Memory.cpp", C.REPO / "src/String.cpp"]
@@ -440,16 +441,30 @@ def translate_fn(repo=None):
     return True, f"{len(k['overloads'])} hash overloads of Base.hpp + hash(const String&) ({len(s['reads'])} character reads), usize {ub} bit"
 
 
+GEN_LINK = C.LEAN / "Nstd" / "Generated" / "HashLink.lean"
+
+
+def translate_link(repo=None):
+    """(ok, message): the bodies of find / insert / remove / clear / swap … of the CURRENT HashMap.hpp, HashSet.hpp, PoolMap.hpp
+    -> lean/Nstd/Generated/HashLink.lean (tools/gen_hash.py); a shape outside the understood subset is refused"""
+    try:
+        return True, "container bodies translated: " + gen_hash.generate(repo or C.REPO, GEN_LINK)
+    except gen_hash.Refuse as e:
+        return False, "tools/gen_hash.py refuses the current container code (broken tie): " + str(e)
+    except OSError as e:
+        return False, "tools/gen_hash.py: " + str(e)
+
+
 def gen(ctx):
-    ok, msg = translate()
-    ok2, msg2 = translate_fn()
+    parts = [translate(), translate_fn(), translate_link()]
     if ctx is not None:
-        ctx.cov.setdefault("translated", "items per block / default capacity " + msg + "; " + msg2)
-    return ok and ok2, msg if not ok else msg2
+        ctx.cov.setdefault("translated", "items per block / default capacity " + parts[0][1] + "; " + parts[1][1] + "; " + parts[2][1])
+    bad = [m for ok, m in parts if not ok]
+    return not bad, bad[0] if bad else parts[2][1]
 
 
 def setup():
-    for ok, msg in (translate(), translate_fn()):
+    for ok, msg in (translate(), translate_fn(), translate_link()):
         if not ok:
             print("hash translate:", msg)
 
@@ -964,6 +979,7 @@ def replay(ctx, path):
         harness = C.build_harness(ctx, "hash", SOURCES, extra_flags=ipb_flags())
     translate()
     translate_fn()
+    translate_link()
     C.lake_build([DRIVER])
     diffs = C.differential(ctx, harness, C.driver_path(DRIVER), [h], reference, C.default_eq)
     for d in diffs:
